@@ -196,9 +196,17 @@ static void scan_pool_victims(void)
 }
 
 /* ------------------------------------------------------------------ C04: matching a return to its cause */
-static void timers_maybe(proc *pr)
+/* "timers a process has armed stay armed until ... the process is interrupted, preempted": once the notice has been delivered,
+ * every timer that was armed before the interrupt was sent (the preemption happened) is gone and must never fire.  A timer that
+ * somebody else armed on the process between that moment and the delivery of the notice, in the same instant, was armed after
+ * the interruption; the library clears it with the others when it delivers an interrupt and keeps it when it delivers a
+ * resource's preemption notice: either is accepted.  Causes are kept in the order in which they were created. */
+static void timers_after_notice(proc *pr, const cause *notice)
 {
-    for (int i = 0; i < pr->ncs; i++) if (pr->cs[i].kind == CK_TIMER && pr->cs[i].state == CS_ARMED) pr->cs[i].state = CS_MAYBE;
+    for (int i = 0; i < pr->ncs; i++) if (pr->cs[i].kind == CK_TIMER && pr->cs[i].state == CS_ARMED) {
+        if (&pr->cs[i] < notice) { pr->cs[i].state = CS_DEAD; PROBE("c04.timer_dead_after_notice"); }
+        else { pr->cs[i].state = CS_MAYBE; PROBE("c04.timer_armed_between_notice_and_delivery"); }
+    }
 }
 
 static bool match_cause(proc *pr, int64_t ret, int want_kind, int want_ref)
@@ -233,7 +241,7 @@ static bool match_cause(proc *pr, int64_t ret, int want_kind, int want_ref)
                 }
             }
         }
-        if (best->kind == CK_INTR || best->kind == CK_PREEMPT) timers_maybe(pr);
+        if (best->kind == CK_INTR || best->kind == CK_PREEMPT) timers_after_notice(pr, best);
         if (best->kind == CK_TIMER) PROBE("c04.timer_delivered");
         if (best->kind == CK_INTR) PROBE("c04.interrupt_delivered");
         if (best->kind == CK_PREEMPT) PROBE("c04.preempt_notice_delivered");
